@@ -300,6 +300,8 @@ class LabelledPointUndirectedGraph(PointUndirectedGraph):
         mask = np.zeros(self.n_points, dtype=bool)
         mask[indices] = True
         new._labels_to_masks[label] = mask
+        # replacing the mask of an existing label may leave points unlabelled
+        new._verify_all_labels_masked()
         return new
 
     def get_label(self, label):
